@@ -244,7 +244,7 @@ func c15Run(c *Ctx) {
 		}
 	}
 	// 4a. texts that arrive through ইনপুট are shown like any other text (digits of either script, marks, per-cent signs …)
-	for _, line := range []string{"\u09ac\u09df\u09b8 \u09e8\u09eb", "\u09e7\u09e8\u09e9", "12\u09e9abc", "100% \u09e6", "e\u0301\u09dc", "m\u00b2 \u00bd", "a\u200cb \u200d", "  padded \u09ea  "} {
+	for _, line := range []string{strings.Repeat("\u0995\u09a5\u09be ", 600) + "end", strings.Repeat("field,", 1000) + "last", "\u09ac\u09df\u09b8 \u09e8\u09eb", "\u09e7\u09e8\u09e9", "12\u09e9abc", "100% \u09e6", "e\u0301\u09dc", "m\u00b2 \u00bd", "a\u200cb \u200d", "  padded \u09ea  "} {
 		src := Lines(Var("v", BI("input")), Print("v"), Print("[v, 1]"), Print(`"<" + v + ">"`), Print("v + 1"), Print("{k: v}"), Var("w", BI("input", `"p: "`)), Print("[w]"))
 		if c.Mine() {
 			c15Judge(c, &Case{Gen: "input-texts", Src: src, Stdin: line + "\n" + line + "\n"})
@@ -260,6 +260,22 @@ func c15Run(c *Ctx) {
 	} {
 		if c.Mine() {
 			c15Judge(c, &Case{Gen: "derived-arrays", Src: src})
+		}
+	}
+	// 4a2. numbers of a million and more, negative zero and huge values that come out of built-ins have the same text everywhere
+	{
+		var lines []string
+		for _, e := range []string{BI("round", "1234567.8"), BI("round", "1000000"), BI("round", "999999.5"), BI("round", "-0.25"), BI("round", "2 ** 70"), BI("abs", "-12345678"), BI("max", "1000000", "3"), BI("min", "[2500000, 9999999]"), BI("pow", "10", "6"), BI("pow", "10", "21"), BI("sqrt", "1000000000000"), BI("len", "[1, 2]") + " * 500000", BI("round", "1e0") + " * 1000000"} {
+			if strings.Contains(e, "1e0") {
+				continue
+			}
+			lines = append(lines, Var("x", e)+" "+Print("x")+" "+Print(`"" + x`)+" "+Print(`x + ""`)+" "+Print("[x]")+" "+Print("{k: x}"))
+		}
+		for i, l := range lines {
+			src := "{ " + l + " }\n"
+			if c.Mine() {
+				c15Judge(c, &Case{Gen: "builtin-number-texts", Src: src, X: map[string]string{"i": fmt.Sprint(i)}})
+			}
 		}
 	}
 	// 4b. a print whose operand fails prints nothing; prints on later interactive lines are unaffected
